@@ -49,6 +49,8 @@ use serde_json::{json, Value};
 use vref::zone as rz;
 use vsim::SimProvider;
 
+pub mod ctor;
+
 pub const ORIGIN: &str = "z.";
 pub const TTL: u32 = 300;
 
@@ -419,6 +421,11 @@ fn key_pair(origin: &str) -> Ed25519SigningKey {
     }
     let kp = ring::signature::Ed25519KeyPair::from_seed_unchecked(&seed).expect("ed25519 seed");
     Ed25519SigningKey::from_ed25519(kp)
+}
+
+/// The zone's fixed key pair (for signers configured differently from [`zone_key`]).
+pub fn key_pair_pub(origin: &str) -> Ed25519SigningKey {
+    key_pair(origin)
 }
 
 pub fn zone_key(origin: &str) -> (DnssecSigner, PublicKeyBuf) {
